@@ -279,7 +279,11 @@ def witnesses(tier, seed):
 def check(tier, seed):
     R = Runner('C19', tier, seed)
     try:
-        R.run_all(witnesses(tier, seed), [Config(isa) for isa in ALL_ISAS], chunk=100)
+        W = witnesses(tier, seed)
+        R.run_all(W, [Config(isa) for isa in ALL_ISAS], chunk=100)
+        # the write paths of the index and mask views have separate SIMD-block loops under FASTOR_USE_VECTORISED_EXPR_ASSIGN
+        Wm = [w for w in W if w.family.startswith('mask.') or (w.params or {}).get('mode') == 'write']
+        R.run_all(Wm, [Config(isa, macros=('FASTOR_USE_VECTORISED_EXPR_ASSIGN',)) for isa in (('sse2', 'avx2', 'avx512') if tier == 'quick' else ALL_ISAS)], chunk=100)
         return finish('C19', tier, seed, R, 'proof',
                       rule='index tensors steer addresses and are constant sidecar cells: one compiled function per (parent shape, index length, Int type, element type, ISA), one interpretation per index vector — reads r = A(it) must copy exactly A[it[k]] in index order (repeats allowed; every vector of length <= 4 over parents of size <= 6, sampled in quick beyond 220 per length), writes A(it) op= rhs with duplicate-free indices are compared over the whole tensor with a reference that touches exactly those cells (frame), per-axis A(it0,it1), mixed A(it,int|fseq), multi-dimensional index tensors, int32/int64/size_t; overlapping index views under noalias(). Boolean masks are DATA and stay symbolic: A(mask) op= rhs must leave cell p as select(m_p, op(A_p, r_p), A_p) — all 2^n masks in one interpretation (gated merge).',
                       trusted=['clang-14 front end and -O2 code generation', 'LLVM IR semantics as modelled by irflow', 'x86 lane table', 'offset oracle gen/c19.py'],
